@@ -30,7 +30,7 @@ ClMut(r) ==
              /\ r.steps[j].after = e.lst
              /\ (e.err = "") = (r.steps[j].err = "")
              /\ (e.err # "" => r.steps[j].err \in {e.err} \cup (IF e.err = "IndexError" THEN {"TypeError"} ELSE {}))>>,
-     <<"parameters-and-type-kept", \A j \in DOMAIN r.steps : r.steps[j].meta_ok>> >>
+     <<"parameters-type-sizes-and-content-equality-kept", \A j \in DOMAIN r.steps : r.steps[j].meta_ok>> >>
 
 \* a sub-collection obtained by indexing a list-backed collection is an independent list: mutating it leaves the parent as it was,
 \* and mutating the parent leaves it as it was (r.who = "sub" / "parent" says which one received the mutation r.o)
